@@ -6,6 +6,7 @@ mod c05;
 mod c06;
 use c06 as c06_support;
 mod exec;
+mod c09;
 mod c11;
 mod c13;
 mod c15;
@@ -47,6 +48,7 @@ fn main() {
         ("c04", "run") => c04::cmd_run(rest),
         ("c05", "run") => c05::cmd_run(rest),
         ("c06", "walk") => c06::cmd_walk(rest),
+        ("c09", "run") => c09::cmd_run(rest),
         ("c11", "run") => c11::cmd_run(rest),
         ("c13", "run") => c13::cmd_run(rest),
         ("c15", "walk") => c15::cmd_walk(rest),
